@@ -203,6 +203,53 @@ def rule_no_clear_payload(ctx):
                     else:
                         ctx.ob(f"{fn.name}: `{nm}` is built under an `if encoded_payload` decision", False, "construction not keyed on the encoded payload", fn.loc(c))
     ctx.require(count >= 6, f"only {count} encrypted-path constructions found")
+    # an invocation that ARRIVED encrypted is never answered in clear: cell-wise over the result kind and what the keyring does with it
+    from ..core.tiny import Tiny, Sym, TinyRaise
+    import itertools
+    succ = [c for c in om.closures() if om.closure_arm(c)[0] == "Invocation" and c.name == "success" and c.parent is om.fn]
+    ctx.require(len(succ) == 1, "INVOCATION: success continuation not found")
+    sf = succ[0]
+    body = [x for x in sf.node.body if not (isinstance(x, ast.Expr) and isinstance(x.value, ast.Constant))]
+    probs = []
+    try:
+        for outcome, kind in itertools.product(("encodes", "raises"), ("plain value", "CallResult")):
+            sent = []
+            CR = Sym("types.CallResult")
+            res_ = Sym("result", pytype=CR, results=[Sym("secret-result")], kwresults={"k": Sym("secret-kw")}, callee=None, callee_authid=None, callee_authrole=None, forward_for=None) \
+                if kind == "CallResult" else Sym("secret-result")
+
+            def encode(*a_):
+                if outcome == "raises":
+                    raise TinyRaise("Exception")
+                return Sym("encoded-payload", payload=Sym("ciphertext"), enc_algo="cryptobox", enc_key=None, enc_serializer="json")
+
+            def default(f_, a_, k_=None):
+                if f_ == "isinstance" and len(a_) == 2:
+                    return a_[0] is res_ and kind == "CallResult" and a_[1] is CR
+                if f_ == "message.Yield":
+                    return Sym("YIELD", clear=("args" in (k_ or {}) or "kwargs" in (k_ or {})), payload=(k_ or {}).get("payload"))
+                if f_ in ("self._message_from_exception", "message.Error"):
+                    return Sym("ERROR", detail=list(a_))
+                if f_ == "self._transport.send":
+                    sent.append(a_[0])
+                    return None
+                return Sym(f"<{f_}>")
+            env = {"self": Sym("session"), sf.params()[0]: res_, "msg.request": 7, "msg.enc_algo": "cryptobox", "self._invocations": {7: Sym("pending")}, "proc": "com.proc",
+                   "self._payload_codec": Sym("keyring", methods={"encode": encode}), "self._transport": Sym("transport"), "types.CallResult": CR,
+                   "registration.procedure": "com.proc", "message.Invocation.MESSAGE_TYPE": 68}
+            t = Tiny(env, default_call=default, opaque_globals=True)
+            r = t.run(body)
+            cell = f"encrypted INVOCATION, endpoint returns a {kind}, keyring {outcome}"
+            if r[0] == "raise" or len(sent) != 1 or not isinstance(sent[0], Sym):
+                probs.append(f"{cell}: {r[0]} {str(r[1])[:50]}, {len(sent)} message(s) sent")
+            elif outcome == "encodes" and not (sent[0].name == "YIELD" and not sent[0].attrs["clear"] and isinstance(sent[0].attrs["payload"], Sym)):
+                probs.append(f"{cell}: answered with {sent[0].name} (clear={sent[0].attrs.get('clear')})")
+            elif outcome == "raises" and sent[0].name == "YIELD":
+                probs.append(f"{cell}: the result is sent as a {'CLEAR ' if sent[0].attrs['clear'] else ''}YIELD although it could not be encrypted")
+        ctx.ob("an invocation that arrived encrypted is answered with the encrypted result, or with an ERROR when the result cannot be encrypted -- never in clear [4 cells]",
+               not probs, "; ".join(probs[:2]), sf.loc())
+    except AnalysisError as e:
+        raise AnalysisError(f"[C20.2-no-clear-payload-on-the-wire] success() outside the modelled subset: {e}")
     # message constructors assert payload => no args/kwargs
     mm = ctx.program.module("autobahn.wamp.message")
     for cn in ("Publish", "Call", "Yield", "Error", "Event", "Result", "Invocation"):
